@@ -145,7 +145,13 @@ impl<'a> Model<'a> {
             let lines = grammar::split_lines(text);
             // clean-mode reading (a prefix-less directive line is skipped, parsing goes on): a
             // superset of the directives a build sees, and what `clean` would delete
-            let items = parse_lenient(&lines);
+            let (items, ambiguous) = parse_lenient_ex(&lines);
+            if ambiguous {
+                // the rest of this source cannot be scanned for temp targets
+                problem.get_or_insert(format!(
+                    "{src}: continuation by spaces after a non-ASCII prefix is ambiguous in the README"
+                ));
+            }
             for it in &items {
                 if let Item::Dir(d, _) = it {
                     if d.kind == Kind::Temp {
@@ -530,14 +536,24 @@ impl<'a> Model<'a> {
 /// Clean-mode view of a file: a prefix-less multi-line directive line is skipped (its error is
 /// ignored) and parsing continues with the next line.
 pub fn parse_lenient(lines: &[String]) -> Vec<Item> {
+    parse_lenient_ex(lines).0
+}
+
+/// as `parse_lenient`; the flag says that parsing stopped early at a continuation line the
+/// README leaves ambiguous (the items are then incomplete)
+pub fn parse_lenient_ex(lines: &[String]) -> (Vec<Item>, bool) {
     let mut out = vec![];
     let mut start = 0usize;
     loop {
         let (items, stop) = grammar::parse(&lines[start..]);
         match stop {
-            None | Some(ParseStop::Ambiguous) => {
+            None => {
                 out.extend(items);
-                return out;
+                return (out, false);
+            }
+            Some(ParseStop::Ambiguous) => {
+                out.extend(items);
+                return (out, true);
             }
             Some(ParseStop::Prefixless) => {
                 // count the lines consumed by the returned items, then skip the offending line
@@ -551,7 +567,7 @@ pub fn parse_lenient(lines: &[String]) -> Vec<Item> {
                 out.extend(items);
                 start += consumed + 1;
                 if start >= lines.len() {
-                    return out;
+                    return (out, false);
                 }
             }
         }
